@@ -6,6 +6,10 @@ package counter
 // unexported mappedFile API. They add no behaviour.
 
 import (
+	"encoding/binary"
+	"fmt"
+	"os"
+	"path/filepath"
 	"strings"
 	"sync/atomic"
 	"unsafe"
@@ -74,6 +78,35 @@ func VerifPlace(hdrLen, limit uint32, nameLen int) (uint32, uint32) {
 	m := &mappedFile{hdrLen: hdrLen}
 	return m.place(limit, strings.Repeat("x", nameLen))
 }
-func VerifHash(name string) uint32                  { return hash(name) }
-func VerifMappedHeader(meta string) ([]byte, error) { return mappedHeader(meta) }
-func VerifIsCorrupt(err error) bool                 { return err == errCorrupt }
+func VerifHash(name string) uint32 { return hash(name) }
+
+// VerifMappedHeader returns the header the package writes for meta, observed
+// through the outermost entry point: openMapped creates a fresh file in a
+// scratch directory and the header is what it put on disk (its length is the
+// length word at offset 28).  No helper of the package is called directly.
+func VerifMappedHeader(meta string) ([]byte, error) {
+	dir, err := os.MkdirTemp("", "verif-hdr-")
+	if err != nil {
+		return nil, err
+	}
+	defer os.RemoveAll(dir)
+	path := filepath.Join(dir, "h.v1.count")
+	m, err := openMapped(path, meta)
+	if err != nil {
+		return nil, err
+	}
+	m.close()
+	data, err := os.ReadFile(path)
+	if err != nil {
+		return nil, err
+	}
+	if len(data) < 32 {
+		return nil, fmt.Errorf("short file")
+	}
+	n := int(binary.LittleEndian.Uint32(data[28:]))
+	if n > len(data) {
+		n = len(data)
+	}
+	return data[:n], nil
+}
+func VerifIsCorrupt(err error) bool { return err == errCorrupt }
